@@ -24,6 +24,52 @@ impl RunResult {
     }
 }
 
+/// how the agent is run: in-process through the `run_once` hook over the in-memory transport,
+/// or as the unmodified binary (`remote` target, TLS on loopback)
+#[derive(Debug, Clone, Copy, PartialEq, Eq)]
+pub enum Runner {
+    Hook,
+    Binary,
+}
+
+pub fn agent_run(
+    runner: Runner,
+    fake: &Arc<Mutex<FakeJunos>>,
+    irr: (&str, u16),
+    db: &str,
+) -> RunResult {
+    match runner {
+        Runner::Hook => full_run(fake, irr, db),
+        Runner::Binary => {
+            let server = match crate::binrun::JunosTlsServer::start(fake.clone()) {
+                Ok(s) => s,
+                Err(e) => return RunResult::Err(format!("harness: tls front end: {e}")),
+            };
+            let r = crate::binrun::run_agent(&crate::binrun::AgentOpts {
+                netconf_port: server.port,
+                irr_port: irr.1,
+                db,
+                verbosity: 0,
+                rust_log: None,
+                client_cert: "client-rsa.crt",
+                client_key: "client-rsa.pk8.key",
+                limit: Duration::from_secs(30),
+            });
+            drop(server);
+            match r {
+                Err(e) => RunResult::Err(format!("harness: {e}")),
+                Ok(b) if b.timed_out => RunResult::Stuck,
+                Ok(b) if b.exit == Some(0) => RunResult::Ok,
+                Ok(b) => RunResult::Err(format!(
+                    "exit {:?}: {}",
+                    b.exit,
+                    b.stderr.lines().rev().take(3).collect::<Vec<_>>().join(" | ")
+                )),
+            }
+        }
+    }
+}
+
 /// one real agent run; `irr` = (host, port) of the IRR server (may be unreachable on purpose)
 pub fn full_run(fake: &Arc<Mutex<FakeJunos>>, irr: (&str, u16), db: &str) -> RunResult {
     let rt = match tokio::runtime::Builder::new_multi_thread()
